@@ -23,7 +23,7 @@ func requestPathList(p *Program) []*ssa.Function {
 
 func checkC14(p *Program, tier string) *Result {
 	r := newResult("C14")
-	r.Explanation = "R-SLOT: a slot taken from a channel field on the accept path (a connection limit) is given back on every exit of the connection goroutine - a leaked slot per refused client ends in every client being refused. The panic sources this code base has, over everything reachable (CHA) from a connection goroutine — decoders, handlers, authenticator, authorizers, accounters, secret providers, loggers: R-BOUNDS/R-ALLOC (every index, slice and library buffer contract proven in range, as for C04, on the larger set); R-PANIC (no explicit panic/exit/fatal, no unchecked type assertion unless every value stored into the asserted field has the asserted type, no non-constant integer division); R-NILCHECK (every use of a value that may be nil — results of module functions that can return a nil constant or a map lookup, non-comma-ok map lookups of pointer/interface type — is dominated by the non-nil edge of a nil test); R-NILIFACE (every struct literal published under an interface sets, to a non-nil value, each interface-typed field that the interface's methods invoke). R-SHAREDWRITE (shared with C15): no unsynchronised write to long-lived state on the request path — a concurrent map write is a fatal runtime error that no recover can catch."
+	r.Explanation = "R-RECURSION: no static call cycle among the module functions on the request path (a stack overflow is fatal for the whole server). R-SLOT: a slot taken from a channel field on the accept path (a connection limit) is given back on every exit of the connection goroutine - a leaked slot per refused client ends in every client being refused. The panic sources this code base has, over everything reachable (CHA) from a connection goroutine — decoders, handlers, authenticator, authorizers, accounters, secret providers, loggers: R-BOUNDS/R-ALLOC (every index, slice and library buffer contract proven in range, as for C04, on the larger set); R-PANIC (no explicit panic/exit/fatal, no unchecked type assertion unless every value stored into the asserted field has the asserted type, no non-constant integer division); R-NILCHECK (every use of a value that may be nil — results of module functions that can return a nil constant or a map lookup, non-comma-ok map lookups of pointer/interface type — is dominated by the non-nil edge of a nil test); R-NILIFACE (every struct literal published under an interface sets, to a non-nil value, each interface-typed field that the interface's methods invoke). R-SHAREDWRITE (shared with C15): no unsynchronised write to long-lived state on the request path — a concurrent map write is a fatal runtime error that no recover can catch."
 	fns := requestPathList(p)
 	dec := decodeSet(p)
 	seen := map[*ssa.Function]bool{}
@@ -39,6 +39,7 @@ func checkC14(p *Program, tier string) *Result {
 	ruleAlloc(p, r, all)
 	rulePanicSources(p, r, all, "R-PANIC")
 	ruleSlot(p, r)
+	ruleRecursion(p, r, all)
 	rulePadPrecondition(p, r)
 	ruleNilCheck(p, r, all)
 	ruleNilIface(p, r)
